@@ -69,11 +69,11 @@ class RayFan:
 
         for k, field in enumerate(self.fields):
             for wavelength in self.wavelengths:
-                ex = self.data[f'{field}'][f'{wavelength}']['x']
+                ex = self.data[f'{field}'][f'{wavelength}']['x'].copy()
                 i_x = self.data[f'{field}'][f'{wavelength}']['intensity_x']
                 ex[i_x == 0] = np.nan
 
-                ey = self.data[f'{field}'][f'{wavelength}']['y']
+                ey = self.data[f'{field}'][f'{wavelength}']['y'].copy()
                 i_y = self.data[f'{field}'][f'{wavelength}']['intensity_y']
                 ey[i_y == 0] = np.nan
 
